@@ -48,7 +48,8 @@ Definition run_fault (a : list N) : list N :=
   let '(rc, log) :=
     if arg a 6 =? 0 then ((0, 0), sites)
     else with_fault sites (obj_of (arg a 5)) (arg a 6 - 1) (kind_from (arg a 7)) (0, 0) [] in
-  [fst rc; snd rc; N.of_nat (length log)] ++ flat_map (fun s => [obj_code (s_obj s); s_a s; s_b s]) log.
+  [fst rc; snd rc; N.of_nat (length log)] ++ flat_map (fun s => [obj_code (s_obj s); s_a s; s_b s]) log
+  ++ [N.of_nat (length sites)] ++ flat_map (fun s => [obj_code (s_obj s); s_a s; s_b s]) sites.
 
 (* C10 over the observation: the failure surfaces (never success, never a hash mismatch), the failed object
    is not touched again, and the call log is a prefix of the fault-free run's *)
@@ -57,10 +58,14 @@ Fixpoint count_obj (l : list N) (o : N) (fuel : nat) : N :=
   | O => 0
   | S f => match l with x :: _ :: _ :: r => (if x =? o then 1 else 0) + count_obj r o f | _ => 0 end
   end.
+(* the reference is the implementation's own fault-free call log (second half of the observation), so that the
+   checker does not depend on how the model slices the calls *)
 Definition holds_fault (a o : list N) : bool :=
-  let free := flat_map (fun s => [obj_code (s_obj s); s_a s; s_b s]) (fault_sites a) in
   match o with
-  | rc :: p :: n :: log =>
+  | rc :: p :: n :: rest =>
+      let log := firstn (3 * N.to_nat n)%nat rest in
+      let free := skipn (S (3 * N.to_nat n))%nat rest in
+      (nth (3 * N.to_nat n)%nat rest PANIC =? N.of_nat (Nat.div (length free) 3)) &&
       negb (rc =? PANIC) &&
       is_prefix_n log free &&
       (if arg a 6 =? 0 then (rc =? 0) && list_eqb log free
